@@ -105,6 +105,47 @@ def whole_query_cases(backend):
     return cases
 
 
+def prior_queries(backend):
+    """Queries translated EARLIER on the same executor object: each declares (through its own metadata) exactly the
+    names the later whole-query cases use without declaring them.  The later query must still be refused."""
+    a = qgen.ALPHA[backend]
+    c = f"e.{a.primary}('A')"
+    ckind = {"atlas": "add_atlas_event_collection_info", "cms_aod": "add_cms_aod_event_collection_info", "cms_miniaod": "add_cms_miniaod_event_collection_info"}[backend]
+    coll = {"metadata_type": ckind, "name": "NoSuchCollection", "include_files": ["x.h"], "container_type": "std::vector<" + a.primary_cls + ">",
+            "element_type": a.primary_cls, "contains_collection": True}
+    if backend != "atlas":
+        coll["element_pointer"] = False
+    fn = lambda name: {"metadata_type": "add_cpp_function", "name": name, "include_files": [], "arguments": ["x"], "code": ["double result = x * 2;"], "return_type": "double"}  # noqa
+    meth = {"metadata_type": "add_cpp_function", "name": "getAttribute", "include_files": [], "arguments": ["name"], "code": ["auto result = obj_j->getAttribute<float>(name);"],
+            "method_object": "obj_j", "instance_object": a.primary_cls, "return_type": "float"}
+    pri = [
+        ("declares-function", f"MetaData(ds, {fn('no_such_function')!r}).Select(lambda e: {c}.Select(lambda j: no_such_function(j.pt())))"),
+        ("declares-toplevel-name", f"MetaData(ds, {fn('Frobnicate')!r}).Select(lambda e: {c}.Select(lambda j: Frobnicate(j.pt())))"),
+        ("declares-undefined-name", f"MetaData(ds, {fn('undefined_thing')!r}).Select(lambda e: {c}.Select(lambda j: undefined_thing(j.pt())))"),
+        ("declares-collection", f"MetaData(ds, {coll!r}).Select(lambda e: e.NoSuchCollection('A').Count())"),
+        ("declares-getattribute-method", f"MetaData(ds, {meth!r}).Select(lambda e: {c}.Select(lambda j: j.getAttribute('emf')))"),
+        ("plain", f"ds.Select(lambda e: {c}.Count())"),
+    ]
+    return pri
+
+
+def history_worker(args):
+    "prior query, then the must-refuse query, on ONE executor object (and once more on a second, newly created one)"
+    from mc.core.translate import _executor_class
+    backend, pname, ptext, items, mds = args
+    out = []
+    for cid, text in items:
+        for same in (True, False):
+            exe = _executor_class(backend)()
+            p0 = translate_ast(wrap_metadata(parse_query(ptext), mds), backend, query_text=ptext, executor=exe, fresh=True)
+            exe2 = exe if same else _executor_class(backend)()
+            pkg = translate_ast(wrap_metadata(parse_query(text), mds), backend, query_text=text, executor=exe2, fresh=False)
+            out.append((cid, pname, same, p0.ok, pkg.ok, {"construct": cid, "position_kind": "whole-after-history", "position": "whole", "host": text, "query": text,
+                                                            "backend": backend, "prior": pname, "prior_query": ptext, "same_executor": same,
+                                                            "code_excerpt": ""} if pkg.ok else None))
+    return out
+
+
 def main(tier="quick"):
     rep = Report(PROP, tier)
     known = F.load(PROP)
@@ -146,6 +187,32 @@ def main(tier="quick"):
                     rep.known_finding(f["id"], f["what"], rec["query"][:140])
                     continue
                 rep.violation(f"{rec['backend']}-{n}", f"accepted instead of refused: construct {cid} at {rec['position']} [{rec['backend']}]: {rec['query'][:300]}", rec)
+    # ---- the same must-refuse queries after an earlier query on the same executor object declared the missing name
+    hwork = []
+    for backend in kmax:
+        mds = tuple(qgen.method_metadata(qgen.ALPHA[backend]))
+        items = list(whole_query_cases(backend))
+        if backend == "atlas":
+            items.append(("templated-getattribute", "ds.Select(lambda e: e.Jets('A').Select(lambda j: j.getAttribute('emf')))"))
+        for pname, ptext in prior_queries(backend):
+            hwork.append((backend, pname, ptext, items, mds))
+    hstats = Counter()
+    for chunk in par.pmap(history_worker, hwork):
+        for cid, pname, same, p_ok, ok, rec in chunk:
+            hstats["history_pairs"] += 1
+            hstats["prior_translated"] += int(p_ok)
+            if rec is not None:
+                n += 1
+                f = F.match(known, rec)
+                if f is not None:
+                    rep.known_finding(f["id"], f["what"], rec["query"][:140])
+                    continue
+                rep.violation(f"{rec['backend']}-hist-{n}", f"accepted instead of refused after the earlier query '{pname}' ({'same' if same else 'new'} executor): construct {cid} "
+                              f"[{rec['backend']}]: {rec['query'][:200]}", rec)
+    if hstats["prior_translated"] < hstats["history_pairs"] * 0.6:
+        raise RuntimeError(f"harness: most prior queries do not translate ({dict(hstats)}): the history dimension is vacuous")
+    stats.update(hstats)
+    total += hstats["history_pairs"]
     rep.set("states", hosts + total)
     rep.set("transitions", total)
     rep.set("traces_validated_against_impl", total - stats["unparsable"])
